@@ -189,11 +189,41 @@ def _start_reach():
             if fn.startswith(src):
                 reach.add(f'{fn[len(src):]}::{code.co_qualname}')
             return mon.DISABLE
+
+        def on_line(code, line):
+            fn = code.co_filename
+            if fn.startswith(src):
+                reach.add(f'{fn[len(src):]}:{line}')
+            return mon.DISABLE
         mon.register_callback(tool, mon.events.PY_START, on_start)
-        mon.set_events(tool, mon.events.PY_START)
+        mon.register_callback(tool, mon.events.LINE, on_line)
+        mon.set_events(tool, mon.events.PY_START | mon.events.LINE)
     except Exception:
         pass
     return reach
+
+
+def _ranges(nums):
+    out, nums = [], sorted(nums)
+    k = 0
+    while k < len(nums):
+        j = k
+        while j + 1 < len(nums) and nums[j + 1] == nums[j] + 1:
+            j += 1
+        out.append(str(nums[k]) if j == k else f'{nums[k]}-{nums[j]}')
+        k = j + 1
+    return ','.join(out)
+
+
+def _split_reach(reach):
+    """function names ('file::qualname') and executed lines ('file:line') share one set; lines are reported as ranges per file"""
+    names = sorted(r for r in reach if '::' in r)
+    lines = {}
+    for r in reach:
+        if '::' not in r:
+            f, _, ln = r.rpartition(':')
+            lines.setdefault(f, []).append(int(ln))
+    return names, {f: _ranges(v) for f, v in sorted(lines.items())}, sum(len(v) for v in lines.values())
 
 
 def merge(results):
@@ -340,7 +370,8 @@ def conclude(pid, tier, seed, m, wall):
         'known_findings_seen': {k: m['vcount'].get(k, 0) for k in known_keys},
         'new_violation_keys': sorted(new_by_key),
         'inconclusive_reasons': reasons,
-        'repo_functions_entered': {'count': len(m['reach']), 'names': sorted(m['reach'])},
+        'repo_functions_entered': {'count': len(_split_reach(m['reach'])[0]), 'names': _split_reach(m['reach'])[0]},
+        'repo_lines_executed': {'count': _split_reach(m['reach'])[2], 'by_file': _split_reach(m['reach'])[1]},
         'exhaustive': bool(getattr(mod, 'EXHAUSTIVE', {}).get(tier, False)) if isinstance(getattr(mod, 'EXHAUSTIVE', None), dict) else False,
     }
     if hasattr(mod, 'extra_coverage'):
